@@ -110,12 +110,15 @@ func c20Shard(t Tier, shard, n int) (run *report.Run) {
 	cases = append(cases, upgradeCases(e, shard, n)...)
 	queries, execs := 0, 0
 	capHit := false
-	for _, c := range cases {
+	for ci, c := range cases {
 		if time.Now().After(dl) {
 			capHit = true
 			break
 		}
 		for _, chk := range []int{0, 1, 2} {
+			if chk == 2 && !t.Thorough && ci%3 != 0 && c.hist.Genesis == "" && c.hist.UpgradeAtBlock == 0 {
+				continue // quick: the restart-after-every-Commit mode for every third plain history (all variant / upgrade histories)
+			}
 			q, problem := e.snapshotRun(c.hist, chk)
 			queries += q
 			execs++
